@@ -37,6 +37,10 @@ THEOREMS = [
     "Aio.C09.readline_collects_at_most_max_size",
     "Aio.C09.readline_result_bounded",
     "Aio.C09.server_close_fails_parked_handler",
+    "Aio.C09.park_raises_recorded_exception",
+    "Aio.C09.never_parked_with_exception_recorded",
+    "Aio.C09.never_parked_with_exception_recorded_current",
+    "Aio.C09.readline_after_own_refill_error_both_versions",
     "Aio.C09.lost_body_counterexample_peer_close",
     "Aio.C09.lost_body_counterexample_chunked_close",
     "Aio.C09.parked_reader_misses_error_counterexample",
@@ -198,7 +202,36 @@ def probe_wait_rechecks_exception():
         loop.close()
 
 
+def probe_wait_checks_exception_at_entry():
+    """Behavioural probe: an exception is recorded on a real StreamReader (no waiter registered), then `_wait()` is
+    entered the way readuntil() does after taking buffers.  Does it raise the recorded exception (repaired) or park
+    on a fresh waiter (code before the repair)?"""
+    from aiohttp.streams import StreamReader
+    from unittest import mock
+    loop = asyncio.new_event_loop()
+    try:
+        proto = mock.Mock()
+        proto.connected = True
+        sr = StreamReader(proto, 2 ** 16, loop=loop)
+        marker = RuntimeError("probe-marker")
+        sr.set_exception(marker)
+        coro = sr._wait("probe")
+        try:
+            coro.send(None)
+        except RuntimeError as e:
+            if e is marker:
+                return True
+            raise
+        except StopIteration:
+            raise RuntimeError("probe: _wait() returned without a wake-up")
+        coro.close()          # parked on a new waiter
+        return False
+    finally:
+        loop.close()
+
+
 def generate(repo):
+    we_flag = probe_wait_checks_exception_at_entry()
     wr_flag = probe_wait_rechecks_exception()
     cc = probe_content_coding_lowercased()
     cc_flag = all(v == k.split(":")[1].lower() for k, v in cc.items())
@@ -224,6 +257,9 @@ def generate(repo):
         "`set_exception` recorded an error, raises that error (`_wait` re-checks `_exception` after the wake-up) instead of\n"
         "returning the buffered bytes -/\n"
         f"def waitRechecksException : Bool := {'true' if wr_flag else 'false'}\n"
+        "/-- probe: `StreamReader._wait()` entered with an exception already recorded (and no waiter) raises it instead of\n"
+        "parking on a fresh waiter -/\n"
+        f"def waitChecksExceptionAtEntry : Bool := {'true' if we_flag else 'false'}\n"
         "end Aio.Gen.C09\n")
     return {"AioModel/Generated/C09.lean": body}
 
